@@ -52,7 +52,7 @@ def prime():
 def strat_case(draw, tier):
     op = draw(st.sampled_from(OPS))
     depths = vs.DEPTHS_STREAM if op != "remove_zerodm" else (2, 4, 8, 32)
-    lay = draw(vs.layout(depths=depths, max_samples=24, min_samples=6, max_files=2, max_chans=8, max_chan_units=1,
+    lay = draw(vs.layout(depths=depths, max_samples=24, min_samples=6, max_files=3, max_chans=8, max_chan_units=1,
                          min_chans=2 if op in ("extract_bands",) else 1))
     lay["data_kind"] = "mid" if op in ("remove_zerodm", "clean_rfi") else ("f32int" if lay["nbits"] == 32 else "full")
     n = sum(lay["split"])
